@@ -202,7 +202,8 @@ pub fn workload(rng: &mut Rng, flavor: Flavor, max_len: usize) -> Workload {
 pub fn simple_sgr_workload(rng: &mut Rng, max_len: usize) -> Workload {
     let sw = swarm(rng, Flavor::Sgr, max_len);
     let mut wl = Workload::default();
-    const SINGLE: [&str; 42] = [
+    const SINGLE: [&str; 52] = [
+        "256", "286", "353", "296", "305", "512", "1024", "263", "108", "98",
         "59", "6", "51", "65", "11", "75", "20", "55",
         "", "0", "00", "1", "2", "3", "5", "7", "8", "9", "21", "22", "23", "24", "25", "27", "28", "29", "53", "39", "49", "039",
         "30", "31", "37", "40", "44", "47", "90", "97", "100", "107", "091", "0107",
@@ -240,7 +241,7 @@ pub fn simple_sgr_workload(rng: &mut Rng, max_len: usize) -> Workload {
                 let code = match rng.below(4) {
                     0 => rng.pick(&SINGLE).to_string(),
                     1 => (*rng.pick(&[30usize, 40, 90, 100]) + rng.below(8)).to_string(),
-                    _ => rng.pick(&SINGLE[27..]).to_string(),
+                    _ => rng.pick(&SINGLE[37..]).to_string(),
                 };
                 out.extend_from_slice(code.as_bytes());
             }
